@@ -26,6 +26,7 @@ from .values import (
     js_typeof,
     js_pow,
     norm_number,
+    to_integer,
 )
 from .errors import (
     JSError,
@@ -1286,9 +1287,9 @@ class VM:
             return acc
 
         def splice_fn(*args):
-            start = int(to_number(args[0])) if args else 0
+            start = to_integer(args[0]) if args else 0
             delete_count = (
-                int(to_number(args[1])) if len(args) > 1 else len(arr._elements) - start
+                to_integer(args[1]) if len(args) > 1 else len(arr._elements) - start
             )
             items = list(args[2:]) if len(args) > 2 else []
 
@@ -1321,7 +1322,7 @@ class VM:
 
         def indexOf_fn(*args):
             search = args[0] if args else UNDEFINED
-            start = int(to_number(args[1])) if len(args) > 1 else 0
+            start = to_integer(args[1]) if len(args) > 1 else 0
             if start < 0:
                 start = max(0, len(arr._elements) + start)
             for i in range(start, len(arr._elements)):
@@ -1331,7 +1332,7 @@ class VM:
 
         def lastIndexOf_fn(*args):
             search = args[0] if args else UNDEFINED
-            start = int(to_number(args[1])) if len(args) > 1 else len(arr._elements) - 1
+            start = to_integer(args[1]) if len(args) > 1 else len(arr._elements) - 1
             if start < 0:
                 start = len(arr._elements) + start
             for i in range(min(start, len(arr._elements) - 1), -1, -1):
@@ -1390,8 +1391,8 @@ class VM:
             return result
 
         def slice_fn(*args):
-            start = int(to_number(args[0])) if args else 0
-            end = int(to_number(args[1])) if len(args) > 1 else len(arr._elements)
+            start = to_integer(args[0]) if args else 0
+            end = to_integer(args[1]) if len(args) > 1 else len(arr._elements)
             if start < 0:
                 start = max(0, len(arr._elements) + start)
             if end < 0:
@@ -1406,7 +1407,7 @@ class VM:
 
         def includes_fn(*args):
             search = args[0] if args else UNDEFINED
-            start = int(to_number(args[1])) if len(args) > 1 else 0
+            start = to_integer(args[1]) if len(args) > 1 else 0
             if start < 0:
                 start = max(0, len(arr._elements) + start)
             for i in range(start, len(arr._elements)):
@@ -1668,8 +1669,8 @@ class VM:
             return separator.join(str(arr.get_index(i)) for i in range(arr.length))
 
         def subarray_fn(*args):
-            begin = int(to_number(args[0])) if len(args) > 0 else 0
-            end = int(to_number(args[1])) if len(args) > 1 else arr.length
+            begin = to_integer(args[0]) if len(args) > 0 else 0
+            end = to_integer(args[1]) if len(args) > 1 else arr.length
 
             # Handle negative indices
             if begin < 0:
@@ -1693,7 +1694,7 @@ class VM:
         def set_fn(*args):
             # TypedArray.set(array, offset)
             source = args[0] if args else UNDEFINED
-            offset = int(to_number(args[1])) if len(args) > 1 else 0
+            offset = to_integer(args[1]) if len(args) > 1 else 0
 
             if isinstance(source, (JSArray, JSTypedArray)):
                 for i in range(source.length):
@@ -1712,7 +1713,7 @@ class VM:
         """Create a bound number method."""
 
         def toFixed(*args):
-            digits = int(to_number(args[0])) if args else 0
+            digits = to_integer(args[0]) if args else 0
             if digits < 0 or digits > 100:
                 raise JSRangeError("toFixed() digits out of range")
             # Use JavaScript-style rounding (round half away from zero)
@@ -1725,7 +1726,7 @@ class VM:
             return result
 
         def toString(*args):
-            radix = int(to_number(args[0])) if args else 10
+            radix = to_integer(args[0]) if args else 10
             if radix < 2 or radix > 36:
                 raise JSRangeError("toString() radix must be between 2 and 36")
             if radix == 10:
@@ -1741,7 +1742,7 @@ class VM:
             import math
 
             if args and args[0] is not UNDEFINED:
-                digits = int(to_number(args[0]))
+                digits = to_integer(args[0])
             else:
                 digits = None
 
@@ -1793,7 +1794,7 @@ class VM:
                     return str(int(n))
                 return str(n)
 
-            precision = int(to_number(args[0]))
+            precision = to_integer(args[0])
             if precision < 1 or precision > 100:
                 raise JSRangeError("toPrecision() precision out of range")
 
@@ -1868,33 +1869,33 @@ class VM:
         """Create a bound string method."""
 
         def charAt(*args):
-            idx = int(to_number(args[0])) if args else 0
+            idx = to_integer(args[0]) if args else 0
             if 0 <= idx < len(s):
                 return s[idx]
             return ""
 
         def charCodeAt(*args):
-            idx = int(to_number(args[0])) if args else 0
+            idx = to_integer(args[0]) if args else 0
             if 0 <= idx < len(s):
                 return ord(s[idx])
             return float("nan")
 
         def indexOf(*args):
             search = to_string(args[0]) if args else ""
-            start = int(to_number(args[1])) if len(args) > 1 else 0
+            start = to_integer(args[1]) if len(args) > 1 else 0
             if start < 0:
                 start = 0
             return s.find(search, start)
 
         def lastIndexOf(*args):
             search = to_string(args[0]) if args else ""
-            end = int(to_number(args[1])) if len(args) > 1 else len(s)
+            end = to_integer(args[1]) if len(args) > 1 else len(s)
             # Python's rfind with end position
             return s.rfind(search, 0, end + len(search))
 
         def substring(*args):
-            start = int(to_number(args[0])) if args else 0
-            end = int(to_number(args[1])) if len(args) > 1 else len(s)
+            start = to_integer(args[0]) if args else 0
+            end = to_integer(args[1]) if len(args) > 1 else len(s)
             # Clamp and swap if needed
             if start < 0:
                 start = 0
@@ -1905,8 +1906,8 @@ class VM:
             return s[start:end]
 
         def slice_fn(*args):
-            start = int(to_number(args[0])) if args else 0
-            end = int(to_number(args[1])) if len(args) > 1 else len(s)
+            start = to_integer(args[0]) if args else 0
+            end = to_integer(args[1]) if len(args) > 1 else len(s)
             # Handle negative indices
             if start < 0:
                 start = max(0, len(s) + start)
@@ -1916,7 +1917,7 @@ class VM:
 
         def split(*args):
             sep = args[0] if args else UNDEFINED
-            limit = int(to_number(args[1])) if len(args) > 1 else -1
+            limit = to_integer(args[1]) if len(args) > 1 else -1
 
             if sep is UNDEFINED:
                 parts = [s]
@@ -1989,24 +1990,26 @@ class VM:
             return result
 
         def repeat(*args):
-            count = int(to_number(args[0])) if args else 0
-            if count < 0:
+            count = to_integer(args[0]) if args else 0
+            if count < 0 or count >= 2**53:
                 raise JSRangeError("Invalid count value")
+            if len(s) * count > 2**30:
+                raise JSRangeError("Invalid string length")
             return s * count
 
         def startsWith(*args):
             search = to_string(args[0]) if args else ""
-            pos = int(to_number(args[1])) if len(args) > 1 else 0
+            pos = to_integer(args[1]) if len(args) > 1 else 0
             return s[pos:].startswith(search)
 
         def endsWith(*args):
             search = to_string(args[0]) if args else ""
-            length = int(to_number(args[1])) if len(args) > 1 else len(s)
+            length = to_integer(args[1]) if len(args) > 1 else len(s)
             return s[:length].endswith(search)
 
         def includes(*args):
             search = to_string(args[0]) if args else ""
-            pos = int(to_number(args[1])) if len(args) > 1 else 0
+            pos = to_integer(args[1]) if len(args) > 1 else 0
             return search in s[pos:]
 
         def replace(*args):
@@ -2252,7 +2255,9 @@ class VM:
         if isinstance(obj, JSArray):
             # Special handling for length property
             if key_str == "length":
-                new_len = int(to_number(value))
+                new_len = to_integer(value)
+                if new_len < 0 or new_len >= 2**32 or new_len != to_number(value):
+                    raise JSRangeError("Invalid array length")
                 obj.length = new_len
                 return
             # Strict array mode: reject non-integer indices
